@@ -1444,7 +1444,17 @@ def gen_route(ctx, count):
             X.append(xrow)
         kexp = rng.choice([0.0, 1.0, 2.0, 3.0, -1.0, 0.5, 0.25, 1.5, -0.5])
         sfac = rng.choice([1.0, 2.0, 4.0, 0.5, 3.0, 0.75])
+        pfam = ["normal", "natural", "gamma", "beta"][i % 4]
+        pn = 1 if (i // 4) % 2 == 0 else rng.randint(1, 3)
+        if pfam == "normal":
+            pint = [[float(rng.randint(-4, 4)) for _ in range(pn)], [float(rng.randint(1, 3)) for _ in range(pn)]]
+        elif pfam == "natural":
+            pint = [[float(rng.randint(-4, 4)) for _ in range(pn)], [-float(rng.randint(1, 3)) for _ in range(pn)]]
+        else:
+            pint = [[float(rng.randint(1, 5)) for _ in range(pn)], [float(rng.randint(1, 5)) for _ in range(pn)]]
+        px = rng.randint(1, 15) / 16.0
         cases.append({"kind": "route", "shape": shape, "fam": fam, "scalar": scalar, "n": n, "msg": msg, "k": hx(kexp), "s": hx(sfac),
+                      "pfam": pfam, "pint": [[hx(v) for v in col] for col in pint], "px": hx(px),
                       "u": U, "x": X, "xq": [[rng.randint(3, 61) / 64.0 for _ in range(n)] for _ in range(k)]})
     return cases
 
@@ -1582,6 +1592,25 @@ def oracle_route(c, res):
             if not okv:
                 out.append(("scalar-rep:%s@%s" % (op, rn), "%s with the real %r as %s gives %s, as python float %s" % (
                     op, unhex(c["k"] if op == "pow" else c["s"]), rn, json.dumps(got)[:300], json.dumps(want)[:300])))
+    # (d) the parameters of a base message as int / np.int64 / np.float32 / 0-d array / integer arrays: same message
+    pr = res.get("prep", {})
+    want = pr.get("float")
+    for rn, got in sorted(pr.items()):
+        if rn == "float":
+            continue
+        if isinstance(want, str) or isinstance(got, str):
+            if got != want:
+                out.append(("param-rep-exception@" + rn, "%s(%s parameters) raised %s; python floats: %s" % (c["pfam"], rn, str(got)[:150], str(want)[:100])))
+            continue
+        tol = 1e-5 if rn == "f32" else 1e-13
+        for q in sorted(want):
+            a, b = got.get(q), want[q]
+            if isinstance(a, str) or isinstance(b, str):
+                if a != b:
+                    out.append(("param-rep-exception:%s@%s" % (q, rn), "%s of %s built from %s parameters: %s; from floats: %s" % (q, c["pfam"], rn, str(a)[:150], str(b)[:100])))
+            elif len(a) != len(b) or not all(same_num(unhex(u_), unhex(v_), tol * max(1.0, abs(unhex(v_)))) for u_, v_ in zip(a, b)):
+                out.append(("param-rep:%s@%s" % (q, rn), "%s of %s%r built from %s parameters is %r, from python floats %r" % (
+                    q, c["pfam"], [[unhex(h) for h in col] for col in c["pint"]], rn, [unhex(h) for h in a], [unhex(h) for h in b])))
     seen, uniq = set(), []
     for a_, m_ in out:           # one report per kind of disagreement (the first route that shows it is named in the aspect)
         if a_.split("@")[0] not in seen:
@@ -1752,6 +1781,8 @@ def run(ctx):
             for op_, reps_ in res.get("scal", {}).items():
                 for rn_ in reps_:
                     ctx.hist("route", op_ + "@" + rn_)
+            for rn_ in res.get("prep", {}):
+                ctx.hist("route", "params:%s@%s" % (c["pfam"], rn_))
             fails += oracle_route(c, res)
             t = coq_route(c, res)
             if t:
